@@ -135,3 +135,6 @@ Definition run_C01o (cs : libcase * list (string * string) * list (string * opti
   | [] => v
   | _ => V (v_corr v) (v_prop v ++ extra) [] (v_nontriv v)
   end.
+
+Definition run_C06 (c : libcase) : verdict := with_rr c (Check_Norm.run_C06 c).
+Definition run_C07 (c : libcase) : verdict := with_rr c (Check_Norm.run_C07 c).
